@@ -384,8 +384,7 @@ def flag_channel(index: Index, attr: str) -> Channel:
                     continue
                 if isinstance(st, ast.Assign):
                     # derived flag (e.g. from all_paths_are_loop_kill()):
-                    # part of the producing phase
-                    ch.producers.append(Site(fi, st, unparse(st)[:70]))
+                    # re-packaging, neither producer nor consumer
                     continue
             if isinstance(n.ctx, ast.Load):
                 # structural re-packaging (x.flag.append(False)) is neither
